@@ -6,6 +6,16 @@ import json, subprocess, os
 HERE = os.path.dirname(os.path.dirname(os.path.abspath(__file__)))
 
 CLAIMED = {
+ "C01": dict(
+   text="Proof that the real Valid (go/ssa of /repo) returns true exactly when the input is one RFC 8259 value surrounded by optional JSON whitespace with nesting <= 10000: skipValue is proved against the master JSON transducer at each of its ~186 cut points for all 256 byte values (sets of possible spec states per generated state are inferred as a least fixpoint and re-verified; push/pop are related through the stack relation), skipFloatDec/skipFloatExp against the same fold with loop invariants, countWhitespace and Valid on top. A changed transition in one generated state fails a named obligation (and is then replayed on the real code).",
+   note="Specification = /verif/cmd/rjv/jsonspec.go (written from RFC 8259; agreement with encoding/json validated on 11.3M enumerated strings and at the depth limit - bounded validation of the spec, not a proof about encoding/json). Uses the absorption lemma (base/step discharged). Buffer independence: the stack parameter is unconstrained at entry.",
+   tech="contract-based deductive verification: simulation of the generated machine against a specification transducer, cut-point VCs over go/ssa, inferred-then-verified invariants, z3/cvc5",
+   ref="DESIGN.md section 6 (C01)"),
+ "C02": dict(
+   text="Same proof as C01 read as an offset statement: SkipValue/skipValue succeed exactly when the spec run accepts and then return exactly the spec's end offset (numbers by maximal munch with one byte of look-ahead, whatever follows), for every byte string; the wrapper passes (p, err) through for nil and non-nil buffers.",
+   note="As C01. The (success, offset) pair of encoding/json's streaming decoder agrees with the spec on the bounded validation set only.",
+   tech="contract-based deductive verification: simulation against a specification transducer, cut-point VCs over go/ssa, z3/cvc5",
+   ref="DESIGN.md section 6 (C02)"),
  "C09": dict(
    text="Proof for every document, call position and accompanying offset: on every path of the real handleArrayValues/handleObjectValues (go/ssa of /repo's tree) through a handler invoke, a non-nil handler error makes the function return that same SSA value with no further invoke; the wrappers pass it through. Handler results are unconstrained 64-bit / error symbols.",
    note="Trusted: go/ssa translation, rjv's SMT semantics, solver unsat answers, Floyd cut-point argument. Invariants at the ~500 machine cut points are inferred (Houdini) and re-verified from scratch on every run.",
@@ -25,7 +35,7 @@ CLAIMED = {
 
 NOT_BUILT = "in reach per DESIGN.md section 6 but its check is not built yet - not claimed"
 NA = {
- "C01": NOT_BUILT, "C02": NOT_BUILT, "C03": NOT_BUILT, "C04": NOT_BUILT, "C05": NOT_BUILT, "C06": NOT_BUILT, "C07": NOT_BUILT,
+ "C03": NOT_BUILT, "C04": NOT_BUILT, "C05": NOT_BUILT, "C06": NOT_BUILT, "C07": NOT_BUILT,
  "C08": NOT_BUILT, "C11": NOT_BUILT, "C13": NOT_BUILT, "C14": NOT_BUILT, "C16": NOT_BUILT, "C18": NOT_BUILT, "C19": NOT_BUILT, "C20": NOT_BUILT,
  "C15": "needs a full functional contract of generic decoding for arbitrary prior reader state (incl. what sync.Pool.Get may return) and ownership of maps/slices reachable through interface values; not expressible in a quantifier-free bit-vector/array VC generator without inductive datatypes or separation logic (DESIGN.md section 6, C15)",
  "C17": "the functional content is utf8.DecodeRune / string([]rune) / string(rune) runtime intrinsics whose semantics would have to be assumed in exactly the form of the property, and the statement is sequence-valued and, for the slice/map helpers, an induction over interface-typed trees; no contract within reach decides it (DESIGN.md section 6, C17)",
